@@ -120,6 +120,11 @@ def CRT_CONNECT(r):
 
 def START(r):
     p = []
+    if r.event == 'MSTART':
+        a = r.field('fsm', 'allow_automatic_start')
+        if not (a is not None and getattr(a, 'value', None) is True):
+            p.append('manual start leaves automatic restart disabled (allow_automatic_start = %s): after the '
+                     'next failure the idle-hold expiry is ignored' % (a.desc() if a is not None else None))
     if r.sends():
         p.append('sends %s' % (r.sends(),))
     if r.final != 'Connect':
